@@ -36,6 +36,15 @@ CHECKS = {
         note="Trusted: reference matcher, operand table, Hypothesis. Depth <= 3 (quick) / 4 (thorough), any-order groups <= 4 children, no times/$not/captures here.",
         ref="DESIGN.md 4/C03",
     ),
+    "C04": dict(
+        cat="exploration",
+        technique="property-based testing (Hypothesis): $not in leading/inner/trailing/repeated/nested/operand position with arguments that match at, after, or not at the site; reference matcher oracle",
+        text="Rules with $not in every position the statement lists, whose argument is drawn to fail at the site, match at the site, match one instruction/operand "
+        "later only, span several instructions, or match only with its first instruction; listings are then perturbed by one mutator. Verdict (bool, all-matches) and every "
+        "reported span are compared with the reference matcher; the evidence counts how many cases' verdict actually depends on the $not node.",
+        note="Trusted: reference matcher, Hypothesis. An operand-level $not needs an operand to consume (no match on operand-less instructions).",
+        ref="DESIGN.md 4/C04",
+    ),
 }
 
 NOT_APPLICABLE = []
